@@ -1,6 +1,6 @@
 (* C04 — Lexing is faithful: element boundaries and types follow IEEE 488.2 section 7
    Statements only: each theorem is closed by `exact` of a lemma proved in the *_proofs.v files. *)
-From VF Require Import Base Gen_Errors Fmt Lexer Grammar Lexer_proofs Grammar_proofs Message_proofs2.
+From VF Require Import Base Gen_Errors Fmt Lexer Grammar Lexer_proofs Grammar_proofs Message_proofs2 Message_proofs3 Lexer_ranges.
 Open Scope N_scope.
 
 Theorem C04_lex_faithful : forall m, wf_msg m = true -> tokenize (render_msg m) = Val (map IOk (tokens_of m)).
@@ -14,6 +14,117 @@ Proof. exact lex_faithful_trailing_separator. Qed.
 Theorem C04_lex_empty : forall w (nl : bool), wf_ws w = true ->
   tokenize (w ++ (if nl then [10] else [])) = Val [].
 Proof. exact lex_empty. Qed.
+
+Theorem C04_tokenize_prefix : forall lead us w bad items,
+  wf_ws lead = true -> forallb Grammar_proofs.wf_uw us = true -> us <> [] -> wf_ws w = true ->
+  tokenize bad = Val items ->
+  tokenize (lead ++ render_units us ++ 59 :: w ++ bad)
+  = Val (map IOk (tokens_units us) ++ IOk TUnitSeparator :: items).
+Proof. exact tokenize_prefix. Qed.
+
+Theorem C04_lex_next_range : forall l t l', lex_next l = Val (STok t l') ->
+  exists used, chars l = used ++ chars l' /\ used <> [] /\
+    match payload t with
+    | Some p => exists pre post, used = pre ++ p ++ post
+    | None => True
+    end.
+Proof. exact lex_next_range. Qed.
+
+Theorem C04_lex_next_range_suffix : forall l v s l', lex_next l = Val (STok (TDecSuffix v s) l') ->
+  exists used, chars l = used ++ chars l' /\ used <> [] /\
+    exists pre mid post, used = pre ++ v ++ mid ++ s ++ post.
+Proof. exact lex_next_range_suffix. Qed.
+
+Theorem C04_tokenize_ranges : forall input items, tokenize input = Val items ->
+  ranges input (payloads items).
+Proof. exact tokenize_ranges. Qed.
+
+Theorem C04_tokenize_params_ranges : forall input items, tokenize_params input = Val items ->
+  ranges input (payloads items).
+Proof. exact tokenize_params_ranges. Qed.
+
+Theorem C04_payload_bytes_from_input : forall input items p, tokenize input = Val items ->
+  In p (payloads items) -> forall b, In b p -> In b input.
+Proof. exact payload_bytes_from_input. Qed.
+
+Theorem C04_payload_total_length : forall input items, tokenize input = Val items ->
+  (list_sum (map (@length byte) (payloads items)) <= length input)%nat.
+Proof. exact payload_total_length. Qed.
+
+Theorem C04_tokenize_tiles : forall input items, tokenize input = Val items ->
+  exists w, input = w ++ skip_ws input /\ all_ws w /\ tiles (skip_ws input) items.
+Proof. exact tokenize_tiles. Qed.
+
+Theorem C04_tokenize_params_tiles : forall input items, tokenize_params input = Val items ->
+  tiles input items.
+Proof. exact tokenize_params_tiles. Qed.
+
+Theorem C04_range_mnemonic : forall l s l', lex_next l = Val (STok (TMnemonic s) l') ->
+  chars l = s ++ chars l' /\ s <> [] /\ mnemonic_bytes s /\
+  not_starting is_mnemonic_char (chars l').
+Proof. exact range_mnemonic. Qed.
+
+Theorem C04_range_char : forall l s l', lex_next l = Val (STok (TChar s) l') ->
+  exists w, chars l = s ++ w ++ chars l' /\ all_ws w /\ s <> [] /\
+    forallb is_mnemonic_char s = true /\ (length s <= 12)%nat /\
+    not_starting is_mnemonic_char (w ++ chars l') /\ at_sep (chars l').
+Proof. exact range_char. Qed.
+
+Theorem C04_range_dec : forall l s l', lex_next l = Val (STok (TDec s) l') ->
+  exists w, chars l = s ++ w ++ chars l' /\ all_ws w /\ s <> [] /\
+    forallb is_num_char s = true /\ at_sep (chars l').
+Proof. exact range_dec. Qed.
+
+Theorem C04_range_decsuffix : forall l v s l', lex_next l = Val (STok (TDecSuffix v s) l') ->
+  exists w1 w2, chars l = v ++ w1 ++ s ++ w2 ++ chars l' /\ all_ws w1 /\ all_ws w2 /\
+    v <> [] /\ forallb is_num_char v = true /\
+    suffix_start s /\ forallb is_suffix_char s = true /\ (length s <= 12)%nat /\
+    not_starting is_suffix_char (w2 ++ chars l') /\ at_sep (chars l').
+Proof. exact range_decsuffix. Qed.
+
+Theorem C04_range_nondec : forall l n l', lex_next l = Val (STok (TNonDec n) l') ->
+  exists r ds w, chars l = 35 :: r :: ds ++ w ++ chars l' /\ ds <> [] /\ all_ws w /\
+    at_sep (chars l').
+Proof. exact range_nondec. Qed.
+
+Theorem C04_range_string : forall l s l', lex_next l = Val (STok (TString s) l') ->
+  exists q w, chars l = q :: s ++ q :: w ++ chars l' /\ (q = 34 \/ q = 39) /\ all_ws w /\
+    forallb is_ascii s = true /\ quotes_paired q s = true /\
+    hd_eqb q (w ++ chars l') = false /\ at_sep (chars l').
+Proof. exact range_string. Qed.
+
+Theorem C04_range_block : forall l s l', lex_next l = Val (STok (TBlock s) l') ->
+  (chars l = 35 :: 48 :: s ++ [10] /\ chars l' = []) \/
+  (exists d lenfield w, chars l = 35 :: d :: lenfield ++ s ++ w ++ chars l' /\
+     is_digit d = true /\ d <> 48 /\ length lenfield = N.to_nat (d - 48) /\
+     parse_usize lenfield = Some (N.of_nat (length s)) /\ all_ws w /\ at_sep (chars l')).
+Proof. exact range_block. Qed.
+
+Theorem C04_range_block_definite : forall l s l', lex_next l = Val (STok (TBlock s) l') ->
+  chars l' <> [] \/ (forall s0, chars l <> 35 :: 48 :: s0) ->
+  exists d lenfield w, chars l = 35 :: d :: lenfield ++ s ++ w ++ chars l' /\
+    (1 <= length lenfield <= 9)%nat /\ d = 48 + N.of_nat (length lenfield) /\
+    forallb is_digit lenfield = true /\
+    N.of_nat (length s) = fst (radix_digits 10 lenfield 0 0) /\ all_ws w /\ at_sep (chars l').
+Proof. exact range_block_definite. Qed.
+
+Theorem C04_range_expr : forall l s l', lex_next l = Val (STok (TExpr s) l') ->
+  exists w, chars l = 40 :: s ++ 41 :: w ++ chars l' /\ all_ws w /\
+    forallb expr_char s = true /\ at_sep (chars l').
+Proof. exact range_expr. Qed.
+
+Theorem C04_range_separator : forall l t l', lex_next l = Val (STok t l') ->
+  payload t = None -> (forall n, t <> TNonDec n) ->
+  exists x w, chars l = x :: w ++ chars l' /\ all_ws w /\
+    match t with
+    | THeaderMnemonicSeparator => x = 58 /\ w = []
+    | THeaderQuerySuffix => x = 63 /\ w = []
+    | TUnitSeparator => x = 59 /\ not_starting is_ws (chars l')
+    | TDataSeparator => x = 44 /\ not_starting is_ws (chars l')
+    | THeaderSeparator => is_ws x = true /\ not_starting is_ws (chars l')
+    | _ => False
+    end.
+Proof. exact range_separator. Qed.
 
 Theorem C04_lex_total : forall input, exists ts, tokenize input = Val ts.
 Proof. exact lex_total. Qed.
@@ -112,6 +223,25 @@ Proof. exact missing_separator_after_string. Qed.
 Print Assumptions C04_lex_faithful.
 Print Assumptions C04_lex_faithful_trailing_separator.
 Print Assumptions C04_lex_empty.
+Print Assumptions C04_tokenize_prefix.
+Print Assumptions C04_lex_next_range.
+Print Assumptions C04_lex_next_range_suffix.
+Print Assumptions C04_tokenize_ranges.
+Print Assumptions C04_tokenize_params_ranges.
+Print Assumptions C04_payload_bytes_from_input.
+Print Assumptions C04_payload_total_length.
+Print Assumptions C04_tokenize_tiles.
+Print Assumptions C04_tokenize_params_tiles.
+Print Assumptions C04_range_mnemonic.
+Print Assumptions C04_range_char.
+Print Assumptions C04_range_dec.
+Print Assumptions C04_range_decsuffix.
+Print Assumptions C04_range_nondec.
+Print Assumptions C04_range_string.
+Print Assumptions C04_range_block.
+Print Assumptions C04_range_block_definite.
+Print Assumptions C04_range_expr.
+Print Assumptions C04_range_separator.
 Print Assumptions C04_lex_total.
 Print Assumptions C04_lex_params_total.
 Print Assumptions C04_lex_progress.
